@@ -131,6 +131,17 @@ def run_case(case, ctx):
                     break
             topup = len(init_batches) >= 2
             _check_initial(P, ctx, case, hist.sample_history[0], init_batches)
+        # read-only diagnostics of the recorded populations (tempered density, weights, evidence ratio) leave them as they are
+        for t, p in enumerate(hist.sample_history):
+            for fn in ("log_p_t", "log_weights", "log_evidence_ratio"):
+                if hasattr(p, fn):
+                    try:
+                        getattr(p, fn)(0.5 if p.beta is None else min(1.0, float(p.beta) + 0.25))
+                    except ValueError as e:
+                        if "NaN" not in str(e):
+                            raise
+            _check_set(P, ctx, case, p, f"after diagnostics: history.sample_history[{t}]")
+        _check_set(P, ctx, case, samples, "after diagnostics: returned")
     for k, blob in enumerate(payloads):
         st = pickle.loads(blob)
         _check_set(P, ctx, case, st["samples"], f"checkpoint[{k}].samples")
